@@ -102,6 +102,8 @@ def handle (ws : List String) : String :=
               ++ " | prods " ++ " ".intercalate (prods.map rr)
               ++ " | argsum " ++ optNat (mccSum sd (incl == "1") ts)
               ++ " | argprod " ++ optNat (mccProd sd (incl == "1") ts)
+              ++ " | mcctrees " ++ (match mccTree (mccSum sd (incl == "1") ts) all members crooted ts with | some h => Hier.render h | none => "-")
+              ++ " " ++ (match mccTree (mccProd sd (incl == "1") ts) all members crooted ts with | some h => Hier.render h | none => "-")
               ++ " | lens " ++ " ".intercalate (lens.map (fun p => s!"{p.1}:" ++ renderStats (stats p.2)))
           | _ => "bad-trees"
         | none => "bad-op"
